@@ -2,21 +2,30 @@
 #include "vh_hash.h"
 #include "io_objs.h"
 #include <thread>
-// ---------- emit the calls of one export ----------
-static void emit_calls(const Sink& s, size_t from) {
-    std::string title;
-    for (size_t i = from; i < s.calls.size(); i++) {
-        const Call& c = s.calls[i]; const std::string& h = c.head;
-        VH_B; vh_s("e", "W"); VH_C;
-        bool oneline = c.len < 160 && h.size() == c.len && h.find('\n') == h.size() - 1;      // a text call is exactly one line
-        if (oneline && h.compare(0, 11, "-----BEGIN ") == 0 && h.size() > 17) { title = h.substr(11, h.size() - 17); vh_s("c", "begin"); VH_C; vh_s("s", title.c_str()); VH_C; vh_i("len", 0); VH_C; vh_i("tag", -1); VH_C; vh_i("bytes", c.len); }
-        else if (oneline && h.compare(0, 9, "-----END ") == 0 && h.size() > 15) { vh_s("c", "end"); VH_C; vh_s("s", h.substr(9, h.size() - 15).c_str()); VH_C; vh_i("len", 0); VH_C; vh_i("tag", -1); VH_C; vh_i("bytes", c.len); }
-        else if (oneline && !title.empty() && c.len < 160 && h.find(": ") != std::string::npos && h[h.size() - 1] == '\n' && h.find('\0') == std::string::npos && (isalpha((unsigned char)h[0]))) {
-            size_t p = h.find(": "); std::string name = h.substr(0, p), val = h.substr(p + 2, h.size() - p - 3);
-            vh_s("c", "prop"); VH_C; vh_s("s", (title + "." + name).c_str()); VH_C; vh_i("len", 0); VH_C; vh_i("tag", -1); VH_C; vh_i("bytes", c.len); VH_C;
-            vh_i("iv", strtol(val.c_str(), NULL, 10)); VH_C; dbl("dv", (double)strtold(val.c_str(), NULL));       // the value as the reader parses it
-        } else { int32_t tag = -1; if (c.len == 4) memcpy(&tag, h.data(), 4); vh_s("c", "w"); VH_C; vh_s("s", ""); VH_C; vh_i("len", c.len); VH_C; vh_i("tag", c.len == 4 ? tag : -1); VH_C; vh_i("bytes", c.len); }
-        VH_E;
+// ---------- emit the exported bytes of one object as canonical tokens ----------
+// Independent of how the library groups its writes: a text section is its lines ("-----BEGIN T-----", "name: value" lines, "-----END T-----"), and
+// everything between two text sections (or up to the end) is ONE binary run, reported with its length and its first four bytes (a type tag).
+static void tok(const char* c, const std::string& sname, long len, long tag, long bytes) { VH_B; vh_s("e", "W"); VH_C; vh_s("c", c); VH_C; vh_s("s", sname.c_str()); VH_C; vh_i("len", len); VH_C; vh_i("tag", tag); VH_C; vh_i("bytes", bytes); }
+static void emit_tokens(const std::string& d, size_t from) {
+    size_t pos = from;
+    while (pos < d.size()) {
+        if (d.compare(pos, 11, "-----BEGIN ") == 0) {
+            size_t nl = d.find('\n', pos); if (nl == std::string::npos) nl = d.size() - 1;
+            std::string line = d.substr(pos, nl + 1 - pos), title = line.size() > 17 ? line.substr(11, line.size() - 17) : "";
+            tok("begin", title, 0, -1, (long)line.size()); VH_E; pos = nl + 1;
+            while (pos < d.size()) {
+                nl = d.find('\n', pos); if (nl == std::string::npos) nl = d.size() - 1; line = d.substr(pos, nl + 1 - pos); pos = nl + 1;
+                if (line.compare(0, 9, "-----END ") == 0) { tok("end", line.size() > 15 ? line.substr(9, line.size() - 15) : "", 0, -1, (long)line.size()); VH_E; break; }
+                size_t p = line.find(": ");
+                if (p == std::string::npos || line.find('\0') != std::string::npos) { tok("junk", title, 0, -1, (long)line.size()); VH_E; continue; }       // matches no call of the specification
+                std::string name = line.substr(0, p), val = line.substr(p + 2, line.size() - p - 3);
+                tok("prop", title + "." + name, 0, -1, (long)line.size()); VH_C; vh_i("iv", strtol(val.c_str(), NULL, 10)); VH_C; dbl("dv", (double)strtold(val.c_str(), NULL)); VH_E;     // the value as the reader parses it
+            }
+        } else {
+            size_t e = d.find("-----BEGIN ", pos); if (e == std::string::npos) e = d.size();
+            int32_t tag = -1; if (e - pos >= 4) memcpy(&tag, d.data() + pos, 4);
+            tok("w", "", (long)(e - pos), tag, (long)(e - pos)); VH_E; pos = e;
+        }
     }
 }
 // functional equivalence: the same gates on the same inputs under the original and the re-imported cloud key; decryption under both secret keys
@@ -145,7 +154,7 @@ int main(int argc, char** argv) {
                 for (int idx : sq) { Obj& o = objs[idx]; size_t c0 = sink.calls.size(), b0 = sink.data.size();
                     VH_B; vh_s("e", "Export"); VH_C; vh_s("ty", o.ty.c_str()); VH_C; emit_desc(o.desc(o.o)); VH_E;
                     if (tr) { o.expF(F, o.o); fflush(F); } else o.expS(os, o.o);
-                    emit_calls(sink, c0);
+                    (void)c0; emit_tokens(sink.data, b0);
                     VH_B; vh_s("e", "ExportEnd"); VH_C; vh_i("bytes", sink.data.size() - b0); VH_C; vh_h("hb", hmix(1, sink.data.data() + b0, sink.data.size() - b0)); VH_E; ends.push_back(sink.data.size()); }
                 if (F) fclose(F);
                 // import everything back in order from one stream
